@@ -624,12 +624,82 @@ func runC14(c *Ctx) {
 
 // ---------------------------------------------------------------- C19
 
+// switchProbe: is the user-namespace relaxation in effect right now? (observed through the public evaluator only: a pod with
+// hostUsers=false and runAsUser=0 passes the runAsUser control iff it is)
+func switchProbe(ev *recEvaluator) bool {
+	p := &corev1.Pod{Spec: corev1.PodSpec{HostUsers: bp(false), SecurityContext: &corev1.PodSecurityContext{RunAsUser: ip(0)},
+		Containers: []corev1.Container{{Name: "c", Image: "i"}}}}
+	rs, _ := ev.Eval(mkLV("restricted", -1), p)
+	for _, r := range rs {
+		if strings.HasPrefix(r.Rev, "runAsUser@") {
+			return r.Allowed
+		}
+	}
+	return false
+}
+
 func runC19(c *Ctx) {
 	n := 1500
 	if c.Thorough {
 		n = 20000
 	}
 	r := NewRng(c.Seed)
+	// the administrator's switch over call histories: after any sequence of setter calls the relaxation is what the LAST call
+	// said (all sequences up to length 5, then random longer ones)
+	{
+		ev := newRecEvaluator()
+		var seqs [][]bool
+		for l := 0; l <= 5; l++ {
+			for m := 0; m < 1<<l; m++ {
+				s := make([]bool, l)
+				for k := range s {
+					s[k] = m&(1<<k) != 0
+				}
+				seqs = append(seqs, s)
+			}
+		}
+		for i := 0; i < sizes(c, 100, 2000); i++ {
+			s := make([]bool, 6+r.Intn(20))
+			for k := range s {
+				s[k] = r.Chance(2, 3)
+			}
+			seqs = append(seqs, s)
+		}
+		var ops []J
+		var got []bool
+		for _, s := range seqs {
+			// back to the start-of-process state: the only way the public API offers is the setter itself; a history-dependent
+			// switch is then caught by the sequences that follow
+			policy.RelaxPolicyForUserNamespacePods(false)
+			if switchProbe(ev) {
+				for k := 0; k < 64 && switchProbe(ev); k++ { // drain whatever the implementation accumulated, so that one failure is not reported 2000 times
+					policy.RelaxPolicyForUserNamespacePods(false)
+				}
+			}
+			for _, b := range s {
+				policy.RelaxPolicyForUserNamespacePods(b)
+			}
+			on := switchProbe(ev)
+			c.Eval(1)
+			ops = append(ops, J{"op": "switch", "calls": s})
+			got = append(got, on)
+			want := len(s) > 0 && s[len(s)-1]
+			if on != want {
+				c.Violate(Finding{Desc: fmt.Sprintf("after the calls RelaxPolicyForUserNamespacePods%v the relaxation is %v, but the administrator's last call said %v", s, on, want),
+					Key: "switch-history", Input: J{"calls": s}})
+			}
+			if len(s) >= 2 {
+				c.Nontrivial(s)
+			}
+		}
+		policy.RelaxPolicyForUserNamespacePods(false)
+		for k, o := range c.Lean(ops) {
+			if lo, _ := o["on"].(bool); lo != got[k] {
+				c.Disagree(Finding{Desc: "switch after a call history differs from the model", Input: ops[k], Go: got[k], Lean: o})
+			}
+		}
+		c.Tag(fmt.Sprintf("switch.sequences=%d", len(seqs)))
+	}
 	revs := shippedRevs()
 	waived := map[string]bool{"runAsNonRoot": true, "runAsUser": true, "procMount": true}
 	defer policy.RelaxPolicyForUserNamespacePods(false)
